@@ -237,17 +237,26 @@ def inherited(w, p2, db, dialect, o2, under):
     if not under:
         return "inherits:none"
     prop0, sym0 = under
+    rdb = db
     if prop0 == "C12":
         rp = p2          # panics are identified by their site, not by a program shape
     else:
         try:
             rp, rdb = relcheck.reduce_case(w, p2, db, dialect, prop0, sym0)
         except Exception:
-            rp = p2
-    w.db_open("d", grel.db_stmts(db))
+            rp, rdb = p2, db
     marker = ""
     if prop0 == "C05":
-        marker = "[W] " if o2.obs.get("frame_wildcard") else "[K] "
+        # the frame marker belongs to the program the shape describes, i.e. the reduced one
+        fw = o2.obs.get("frame_wildcard")
+        try:
+            w.db_open("rdx", grel.db_stmts(rdb if rp is not p2 else db))
+            fw = relcheck.run_case(w, rp, rdb if rp is not p2 else db, "rdx", dialect).obs.get("frame_wildcard", fw)
+            w.db_close("rdx")
+        except Exception:
+            pass
+        marker = "[W] " if fw else "[K] "
+    w.db_open("d", grel.db_stmts(db))
     shape0 = dialect + " :: " + marker + relcheck.shape_of(rp)
     if prop0 not in _FCACHE:
         _FCACHE[prop0] = core.load_findings(prop0)
